@@ -224,6 +224,7 @@ def jobs(tier, seed):
 
 
 META = {
+    "pinned_models": True,
     "expected_covers": {"roundtrip": ["written", "reloaded", "rewritten"], "edited_roundtrip": ["written", "reloaded", "rewritten"], "load_twice": ["written", "reloaded", "rewritten"]},
     "assumptions": [
         "JSON text layer replaced by the DocText stub (contract in psx/stubs.py)",
